@@ -20,7 +20,8 @@ function GetRulesToPatch(spec, stableService, protocol)
     if (spec[protocol] ~= nil) then
         for _, rule in ipairs(spec[protocol]) do
             -- skip routes contain matches
-            if (rule.match == nil) then
+            -- and rules without routes (redirect, directResponse, delegate)
+            if (rule.match == nil and rule.route ~= nil) then
                 for _, route in ipairs(rule.route) do
                     if GetHost(route) == stableService then
                         table.insert(matchedRoutes, rule)
